@@ -9,8 +9,10 @@ C10 — Optimizing normalization preserves program behaviour.
 
 The pass models are in Trivial / Propagation / DeadVars / ControlFlow / StackAlign.lean, the proofs of the
 pass cores in TrivialProofs / PropagationProofs / DeadVarsProofs / ControlFlowProofs / StackAlignProofs.lean,
-the facts about runs of the reference interpreter in RunLemmas.lean. This file states the property for a
-pass and for the composition, and collects what is proved.
+the facts about runs of the reference interpreter in RunLemmas.lean, the run-level trace theorems of the
+passes in RunPropagation / RunDeadVars (+ AliveFixpoint) / RunControlFlow / RunStackAlign.lean, the transport
+of the structural hypotheses and of H2 through the passes in Transport / RunLocalsTransport (+ TrivialVars).lean.
+This file states the property for a pass and for the composition, and proves the composition.
 -/
 import CweModel.C10.Spec
 import CweModel.C10.PropagationProofs
@@ -53,9 +55,10 @@ def PassPreserves (env : Env) (ptr : Nat) (align : Nat) (pass : Program → Prog
         NoStuck (runSub env ss.1.term σ fuel) →
         tracesAgree (runSub env ss.1.term σ fuel) (runSub env ss.2.term σ fuel) = true
 
-/-- **The composition theorem in full** (statement): `Project::normalize_optimize` preserves the behaviour
-of every function. Proved so far: the stage `substitute_trivial_expressions` (`trivial_preserves` below) and
-the cores of the other four passes (see the list in props/C10.json). -/
+/-- **The composition theorem in full, on raw traces** (statement): `Project::normalize_optimize` preserves the
+behaviour of every function. This raw-trace form demands more than the property (see
+`NormalizeOptimizePreservesObs` below, the form that is proved under extra hypotheses); it holds for the stage
+`substitute_trivial_expressions` (`substTrivialProgram_preserves`). -/
 def NormalizeOptimizePreserves (env : Env) (arch : String) (phys : VarSet) : Prop :=
   PassPreserves env env.sp.size 16 (normalizeOptimize arch env.sp phys)
 
